@@ -19,6 +19,12 @@ fn class_num(c: MessageClass) -> u8 {
 }
 
 pub fn check_program(ctx: &mut Ctx, p: &Program) {
+    let opened = ctx.wd.enter_case_src("builder-program", p);
+    check_program_inner(ctx, p);
+    ctx.wd.leave_case(opened);
+}
+
+fn check_program_inner(ctx: &mut Ctx, p: &Program) {
     ctx.eval();
     let w = || p.to_json();
     let r = guard(|| {
@@ -134,14 +140,59 @@ fn readback(ctx: &mut Ctx, p: &Program, ser_label: &'static str, bytes: &[u8], e
                     }
                 }
             }
-            let attrs = if by_position_ok { attrs } else { vec![(0xdead, b"nth/skip/last/count disagree with sequential iteration".to_vec())] };
+            let mut attrs = if by_position_ok { attrs } else { vec![(0xdead, b"nth/skip/last/count disagree with sequential iteration".to_vec())] };
+            // reading by TYPE: the builder refuses repeated types, so a lookup by type names exactly one
+            // attribute of the message, wherever it sits (all of them up to 300 attributes, a spread and
+            // the last twenty beyond)
+            if by_position_ok {
+                let stride = (n / 300).max(1);
+                for (i, (t, v)) in attrs.iter().enumerate() {
+                    if i % stride != 0 && i + 20 < n {
+                        continue;
+                    }
+                    let ty = AttributeType::new(*t);
+                    let raw = m.raw_attribute(ty).map(|r| (r.get_type().value(), r.value.to_vec()));
+                    if !m.has_attribute(ty) || raw.as_ref() != Some(&(*t, v.clone())) {
+                        attrs = vec![(0xdeae, format!("lookup by type {t:#06x} (attribute #{i} of {n}): has_attribute {} raw_attribute {:?}", m.has_attribute(ty), raw.map(|r| (r.0, r.1.len()))).into_bytes())];
+                        break;
+                    }
+                }
+            }
+            // typed lookups: `attribute::<T>()` finds each typed attribute and hands back its value
+            let mut typed: Vec<(&'static str, Result<Option<Vec<u8>>, String>)> = vec![];
+            for a in &p.attrs {
+                if let AttrSpec::Typed(k, _) = a {
+                    typed.push((k.name(), imp::impl_msg_attribute(*k, &m).map(|o| o.map(|o| o.to_raw().value.to_vec()))));
+                }
+            }
+            for s in &p.seals {
+                let k = match s { SealSpec::Sha1 => crate::refimpl::attrs::Kind::MessageIntegrity, SealSpec::Sha256 => crate::refimpl::attrs::Kind::MessageIntegritySha256, SealSpec::Fp => crate::refimpl::attrs::Kind::Fingerprint };
+                typed.push((k.name(), imp::impl_msg_attribute(k, &m).map(|o| o.map(|o| o.to_raw().value.to_vec()))));
+            }
+            let attrs = (attrs, typed);
             (class_num(m.class()), m.method(), imp::tid_to_bytes(m.transaction_id()), attrs, m.validate_integrity(&imp::to_impl_creds(&p.creds)).map_err(|e| format!("{e:?}")))
         })
     });
     match rb {
         Err(pn) => ctx.violation("C03", "readback-no-panic", "Message::from_bytes", "", w, "Ok".into(), format!("panic: {} at {}", pn.msg, pn.loc)),
         Ok(Err(e)) => ctx.violation("C03", "readback-parses", "Message::from_bytes", via.trim_start_matches(','), w, "Ok".into(), format!("Err({e:?}) on {}", hex(&bytes[..bytes.len().min(160)]))),
-        Ok(Ok((c, m, tid, attrs, val))) => {
+        Ok(Ok((c, m, tid, (attrs, typed), val))) => {
+            for (name, got) in typed {
+                let code = crate::refimpl::attrs::Kind::from_name(name).map(|k| k.code()).unwrap_or(0);
+                let want = expected.iter().find(|a| a.0 == code).map(|a| a.1.clone());
+                match (&got, &want) {
+                    (Ok(Some(g)), Some(w_)) if g == w_ => ctx.count("typed-lookup-readback-equal"),
+                    _ => ctx.violation(
+                        "C03",
+                        "readback-typed-lookup",
+                        "Message::attribute",
+                        &format!("{name}{via}"),
+                        w,
+                        format!("{:?}", want.map(|v| hex(&v[..v.len().min(48)]))),
+                        format!("{:?}", got.map(|o| o.map(|v| hex(&v[..v.len().min(48)])))),
+                    ),
+                }
+            }
             if c != p.class || m != p.method || tid != p.tid {
                 ctx.violation(
                     "C03",
@@ -334,6 +385,7 @@ pub fn run(ctx: &mut Ctx) {
     }
     ctx.require("many-attribute-programs", 16);
     ctx.require("typed-readback-equal", 10_000);
+    ctx.require("typed-lookup-readback-equal", 10_000);
     ctx.require("sealed-validates", 5_000);
     ctx.require("seals:sha1+sha256+fingerprint", 500);
     ctx.require("programs-over-16-attributes", 200);
